@@ -22,7 +22,7 @@ def check_cuts_array(
     Returns
     -------
     cuts : np.ndarray
-        The unmodified input cuts array.
+        The input cuts array, converted to a signed integer type if necessary.
 
     Raises
     ------
@@ -34,6 +34,10 @@ def check_cuts_array(
 
     if not np.issubdtype(cuts.dtype, np.integer):
         raise ValueError("The cuts must be of integer type.")
+
+    if np.issubdtype(cuts.dtype, np.unsignedinteger):
+        # Differences and negations of unsigned integers wrap around.
+        cuts = cuts.astype(np.int64)
 
     if cuts.shape[-1] != last_dim_size:
         raise ValueError(
